@@ -223,7 +223,7 @@ def run_shard(spec, seed, tier):
             else:
                 out.append(f)
         return out
-    n = 800 if tier == "quick" else 5000
+    n = 800 if tier == "quick" else 12000
     found = core.hyp_search(gen.message_case(opts=opts), body, seed, n)
     if found:
         res.failures.extend(found)
